@@ -44,6 +44,7 @@ type Op struct {
 	Relay  int        `json:"relay_depth"`
 	IAPDs  [][]string `json:"iapds"` // per IA_PD: list of symbolic hints
 	NoCID  bool       `json:"no_client_id,omitempty"`
+	Age    bool       `json:"age,omitempty"` // not a message: all leases run out (time passes)
 }
 
 type Pool struct {
@@ -76,6 +77,7 @@ type Sys struct {
 	hist   []Op
 	dead   bool
 	broken bool
+	aged   map[string]bool // ghost: clients whose leases ran out since they were last answered
 	nclients int
 	rich   bool
 }
@@ -85,7 +87,7 @@ func duidOf(client string) []byte {
 }
 
 func NewSys(r *ev.Run, id string, p Pool, nclients int, rich bool) *Sys {
-	s := &Sys{r: r, id: id, pool: p, ghost: map[string][]told{}, nclients: nclients, rich: rich}
+	s := &Sys{r: r, id: id, pool: p, ghost: map[string][]told{}, aged: map[string]bool{}, nclients: nclients, rich: rich}
 	_, ipn, err := net.ParseCIDR(p.CIDR)
 	if err != nil {
 		panic(err)
@@ -253,6 +255,9 @@ func (s *Sys) Ops() []Op {
 		}
 	}
 	ops = append(ops, Op{Client: "A", Msg: 1, NoCID: true, IAPDs: [][]string{{}}})
+	if len(s.aged) < len(s.ghost) {
+		ops = append(ops, Op{Client: "-", Age: true, IAPDs: [][]string{}})
+	}
 	// resolve now, so ops are concrete and deterministic
 	for i := range ops {
 		ops[i] = s.concretize(ops[i])
@@ -271,7 +276,7 @@ func (s *Sys) Ops() []Op {
 }
 
 func (s *Sys) concretize(o Op) Op {
-	n := Op{Client: o.Client, Msg: o.Msg, Relay: o.Relay, NoCID: o.NoCID, IAPDs: [][]string{}}
+	n := Op{Client: o.Client, Msg: o.Msg, Relay: o.Relay, NoCID: o.NoCID, Age: o.Age, IAPDs: [][]string{}}
 	for _, hs := range o.IAPDs {
 		c := []string{}
 		for _, h := range hs {
@@ -301,7 +306,12 @@ func (s *Sys) Key() string {
 		g = append(g, e)
 	}
 	sort.Strings(g)
-	return fmt.Sprintf("leases=%v bits=%v ghost=%v", d.Leases, d.Bits, g)
+	var ag []string
+	for c := range s.aged {
+		ag = append(ag, c)
+	}
+	sort.Strings(ag)
+	return fmt.Sprintf("leases=%v bits=%v ghost=%v expired=%v", d.Leases, d.Bits, g, ag)
 }
 
 func buildReq(o Op) []byte {
@@ -400,6 +410,17 @@ func (s *Sys) Apply(op Op, live bool) (obs string) {
 		return "dead"
 	}
 	s.hist = append(s.hist, op)
+	if op.Age {
+		const d = time.Hour + 2*time.Minute
+		s.hd.VerifAge(d)
+		for c, ts := range s.ghost {
+			s.aged[c] = true
+			for i := range ts {
+				ts[i].before = ts[i].before.Add(-d)
+			}
+		}
+		return "aged"
+	}
 	if s.hd.VerifLocked() {
 		// an earlier message left the handler mutex held: every further message would block
 		// forever, so the instance is dead (reported when the lock was first seen held)
@@ -435,6 +456,7 @@ func (s *Sys) Apply(op Op, live bool) (obs string) {
 		}()
 		srv.PrefixGate.RLock()
 		defer srv.PrefixGate.RUnlock()
+		defer reg.OpBegin(fmt.Sprintf("pool %s->/%d: message %x after %d messages", s.pool.CIDR, s.pool.Page, wire, len(s.hist)-1))()
 		out, stop = s.h(req, resp)
 		return
 	}()
@@ -505,6 +527,7 @@ func (s *Sys) Apply(op Op, live bool) (obs string) {
 			s.violate("C08", "iapd-mismatch", fmt.Sprintf("request IA_PD IAIDs %x answered with IAIDs %x", wantIDs, gotIDs))
 		}
 	}
+	delete(s.aged, op.Client)
 	var obsParts []string
 	allRepeat := true // message consists only of hint-less / exactly-held IA_PDs
 	for _, hs := range op.IAPDs {
